@@ -333,6 +333,9 @@ func init() {
 		return one(st, nil)
 	})
 
+	regSummary(abPkg+".ErrorMap", "ErrorMap(errs): pure data assembly for rendering (opaque function of errs)", func(ex *Executor, st *State, c *callCtx) []callResult {
+		return one(st, App("errormap", SInt, ex.asTerm(st, c.Args[0])))
+	})
 	regStd()
 }
 
